@@ -1,11 +1,30 @@
 import TexSoupProofs.Properties.C19
+import TexSoupProofs.Properties.TokInverse
+import TexSoupProofs.Reader.LeafSlices
+import TexSoupModel.SearchRegex
 /-!
 # C13 (iii) – offsets reported by `search_regex`
 
 `search_regex` reports, for a match found at offset `k` inside the text of a text token at
 recorded position `p`, the source offset `p + k`. Since a token's text is the slice of the
 source at its recorded offset (`token_offsets`), the matched text stands at that source offset.
-The regular-expression engine (which finds `k` and the length) is trusted, not modelled.
+The regular-expression engine (which finds `k` and the length) is not modelled: it is a
+parameter `m : Str → List (Nat × Nat)` of the model `searchRegex` (`TexSoupModel/SearchRegex.lean`),
+and the theorems hold for every `m`.
+
+* `match_offset`: the token-level fact.
+* `text_leaf_slice`: every text leaf of the `text` view of a parsed document with a recorded
+  position (`0 ≤ q`) carries exactly the slice of the source at that position. A leaf is one
+  token, or - the text child of a verbatim-like environment - a run of consecutive tokens
+  (`parse_sliced`); the tokens are contiguous because the source has no NUL/DEL
+  (`tokenize_separated`). The empty verbatim body (`''` at the offset of `\end`) is covered: the
+  empty slice.
+* `search_regex_offsets`: every match reported for a leaf with a recorded position stands in
+  the source at the reported offset.
+
+Exception, stated as the filter `0 ≤ x.pos` (and shown to be necessary by
+`search_regex_bare_argument`): the text of the brace group made up for a bare-token mandatory
+argument (`\def\a b`) has the default position `-1`, and `-1 + k` is not where it stands.
 -/
 namespace TexSoup.C13
 
@@ -22,5 +41,180 @@ theorem match_offset {s : Str} {ts : List Tok} (h : tokenize s = some ts) (t : T
   have h1 := token_offsets h t ht
   rw [h1]
   exact slice_of_slice s t.pos t.text.length k l hkl
+
+
+/-! ## Parsed trees -/
+
+theorem running_of_positioned : ∀ {p : Nat} {ts : List Tok}, Positioned p ts → Running p ts
+  | _, [], _ => trivial
+  | _, _ :: _, h => ⟨h.1, running_of_positioned h.2⟩
+
+variable {tol : Bool} {skip : List Str} {s : Str} {es : List Expr}
+
+/-- Every leaf of the `text` view of a parsed document (no NUL/DEL in the source) that has a
+recorded position carries exactly the slice of the source at that position. -/
+theorem text_leaf_slice (hs : ∀ c ∈ s, isIgnored (catOf c) = false)
+    (h : parse tol skip s = .ok es) :
+    ∀ t q, .text t q ∈ textRoot es → 0 ≤ q → t = (s.drop q.toNat).take t.length := by
+  intro t q hmem h0
+  obtain ⟨ts, ht⟩ := tokenize_total s
+  have hsl : SlicedL ts es := parse_sliced ht h
+  obtain ⟨t', q', heq, hat⟩ := hsl.of_textList es _ hmem
+  simp only [Expr.text.injEq] at heq
+  obtain ⟨rfl, rfl⟩ := heq
+  have := hat.slice h0 (running_of_positioned (tokenize_separated hs ht).2)
+  rwa [tokenize_lossless hs ht] at this
+
+/-- the same for the `text` view of any top-level node -/
+theorem text_leaf_slice_node (hs : ∀ c ∈ s, isIgnored (catOf c) = false)
+    (h : parse tol skip s = .ok es) {e : Expr} (he : e ∈ es) :
+    ∀ t q, .text t q ∈ textOf e → 0 ≤ q → t = (s.drop q.toNat).take t.length := by
+  intro t q hmem h0
+  obtain ⟨ts, ht⟩ := tokenize_total s
+  have hsl : SlicedL ts es := parse_sliced ht h
+  have hse : Sliced ts e := SlicedL_mem hsl he
+  obtain ⟨t', q', heq, hat⟩ := hse.of_textOf e _ hmem
+  simp only [Expr.text.injEq] at heq
+  obtain ⟨rfl, rfl⟩ := heq
+  have := hat.slice h0 (running_of_positioned (tokenize_separated hs ht).2)
+  rwa [tokenize_lossless hs ht] at this
+
+theorem take_take_length (x : Str) (l : Nat) : x.take (x.take l).length = x.take l := by
+  have e : (x.take l).take (x.take l).length = x.take l := List.take_length
+  rw [List.take_take] at e
+  have hle : (x.take l).length ≤ l := List.length_take_le l x
+  rwa [Nat.min_eq_left hle] at e
+
+/-- The offset arithmetic of `search_regex`: a match `(k, l)` (in bounds or not) inside a text
+that is the slice of the source at `q` stands in the source at `q + k`. -/
+theorem match_in_slice (s t : Str) (q k l : Nat) (ht : t = (s.drop q).take t.length) :
+    (s.drop (q + k)).take ((t.drop k).take l).length = (t.drop k).take l := by
+  have hlen : ((t.drop k).take l).length ≤ t.length - k := by
+    simp only [List.length_take, List.length_drop]; omega
+  by_cases hk : k ≤ t.length
+  · generalize hl' : ((t.drop k).take l).length = l' at hlen ⊢
+    have e : (t.drop k).take l = (t.drop k).take l' := by
+      rw [← hl']; exact (take_take_length _ _).symm
+    rw [e]
+    have := slice_of_slice s q t.length k l' (by omega)
+    rw [← ht] at this
+    exact this.symm
+  · have : t.drop k = [] := List.drop_eq_nil_of_le (by omega)
+    simp [this]
+
+/-- What `search_regex` reports. -/
+theorem mem_searchRegexIn {m : Matcher} {leaves : List Expr} {pb : Int × Str} :
+    pb ∈ searchRegexIn m leaves ↔
+      ∃ t q k l, .text t q ∈ leaves ∧ (k, l) ∈ m t ∧ pb = (q + (k : Int), (t.drop k).take l) := by
+  unfold searchRegexIn
+  rw [List.mem_flatMap]
+  constructor
+  · rintro ⟨x, hx, hpb⟩
+    cases x with
+    | text t q =>
+      simp only [searchLeaf, List.mem_map] at hpb
+      obtain ⟨⟨k, l⟩, hkl, rfl⟩ := hpb
+      exact ⟨t, q, k, l, hx, hkl, rfl⟩
+    | cmd _ _ _ _ => simp [searchLeaf] at hpb
+    | nenv _ _ _ _ => simp [searchLeaf] at hpb
+    | math _ _ _ => simp [searchLeaf] at hpb
+    | group _ _ _ => simp [searchLeaf] at hpb
+  · rintro ⟨t, q, k, l, hx, hkl, rfl⟩
+    refine ⟨.text t q, hx, ?_⟩
+    simp only [searchLeaf, List.mem_map]
+    exact ⟨(k, l), hkl, rfl⟩
+
+/-- Leaf form: a match `(k, l)` found in a leaf of the `text` view with recorded position `q`
+is reported at `q + k`, and the source carries the matched text there. -/
+theorem search_regex_offsets_leaf (hs : ∀ c ∈ s, isIgnored (catOf c) = false)
+    (h : parse tol skip s = .ok es) :
+    ∀ t q, .text t q ∈ textRoot es → 0 ≤ q → ∀ k l : Nat,
+      (s.drop (q + (k : Int)).toNat).take ((t.drop k).take l).length = (t.drop k).take l := by
+  intro t q hmem h0 k l
+  have hsl := text_leaf_slice hs h t q hmem h0
+  have : (q + (k : Int)).toNat = q.toNat + k := by omega
+  rw [this]
+  exact match_in_slice s t q.toNat k l hsl
+
+/-- **C13 (iii).** Every match reported by `search_regex` on a parsed document - for any
+regular-expression engine `m`, strict or tolerant parse, source without NUL/DEL - for a text
+leaf that has a recorded position carries the source offset at which the matched text
+actually occurs. -/
+theorem search_regex_offsets (hs : ∀ c ∈ s, isIgnored (catOf c) = false)
+    (h : parse tol skip s = .ok es) (m : Matcher) :
+    ∀ pb ∈ searchRegexIn m ((textRoot es).filter (fun x => decide (0 ≤ x.pos))),
+      (s.drop pb.1.toNat).take pb.2.length = pb.2 := by
+  intro pb hpb
+  obtain ⟨t, q, k, l, hx, _, rfl⟩ := mem_searchRegexIn.1 hpb
+  obtain ⟨hmem, h0⟩ := List.mem_filter.1 hx
+  exact search_regex_offsets_leaf hs h t q hmem (of_decide_eq_true h0) k l
+
+/-- If no leaf of the `text` view lacks a position (no bare-token argument), this is every
+match `search_regex` reports. -/
+theorem search_regex_offsets_all (hs : ∀ c ∈ s, isIgnored (catOf c) = false)
+    (h : parse tol skip s = .ok es) (m : Matcher) (hpos : ∀ x ∈ textRoot es, 0 ≤ x.pos) :
+    ∀ pb ∈ searchRegex m es, (s.drop pb.1.toNat).take pb.2.length = pb.2 := by
+  intro pb hpb
+  obtain ⟨t, q, k, l, hx, _, rfl⟩ := mem_searchRegexIn.1 hpb
+  exact search_regex_offsets_leaf hs h t q hx (hpos _ hx) k l
+
+/-- With an engine that reports in-bounds matches, the reported body has the reported length. -/
+theorem search_regex_length {m : Matcher} (hm : InBounds m) {leaves : List Expr} {t : Str} {q : Int}
+    {k l : Nat} (_hx : Expr.text t q ∈ leaves) (hkl : (k, l) ∈ m t) :
+    ((t.drop k).take l).length = l := by
+  have := hm t (k, l) hkl
+  simp only [List.length_take, List.length_drop]
+  simp only at this
+  omega
+
+/-! ### Non-vacuity -/
+
+/-- `\a{bcd}$x$`: a leaf inside an argument and a leaf inside a math region -/
+def rxDoc : Str := [92, 97, 123, 98, 99, 100, 125, 36, 120, 36]
+
+def rxTree : List Expr :=
+  [.cmd [97] [.group .brace [.text [98, 99, 100] 3] 2] [] 0, .math .dollar [.text [120] 8] 7]
+
+/-- an engine that finds `cd` (at offset 1, length 2) in `bcd` and nothing elsewhere -/
+def rxM : Matcher := fun t => if t == [98, 99, 100] then [(1, 2)] else []
+
+example : ∀ c ∈ rxDoc, isIgnored (catOf c) = false := by decide +kernel
+theorem rxDoc_parse : parse false [] rxDoc = .ok rxTree := by rfl
+example : textRoot rxTree = [.text [98, 99, 100] 3, .text [120] 8] := by rfl
+example : searchRegex rxM rxTree = [(4, [99, 100])] := by rfl
+example : (rxDoc.drop 4).take 2 = [99, 100] := by rfl
+example : (textRoot rxTree).filter (fun x => decide (0 ≤ x.pos)) = textRoot rxTree := by rfl
+example : InBounds rxM := by
+  intro t kl hkl
+  unfold rxM at hkl
+  by_cases ht : (t == [98, 99, 100]) = true
+  · rw [if_pos ht] at hkl
+    simp only [List.mem_singleton] at hkl
+    have : t = [98, 99, 100] := by simpa using ht
+    subst hkl this
+    decide
+  · rw [if_neg ht] at hkl; cases hkl
+
+/-- The restriction to leaves with a recorded position is necessary: in `\def\a b` the text
+` b` of the made-up group has position `-1`; a match of `b` at offset 1 is reported at offset
+`0`, where the source carries `\`. -/
+theorem search_regex_bare_argument :
+    ∃ (s : Str) (es : List Expr) (m : Matcher),
+      (∀ c ∈ s, isIgnored (catOf c) = false) ∧ parse false [] s = .ok es ∧ InBounds m ∧
+      ¬ ∀ pb ∈ searchRegex m es, (s.drop pb.1.toNat).take pb.2.length = pb.2 := by
+  refine ⟨[92, 100, 101, 102, 92, 97, 32, 98],
+    [.cmd [100, 101, 102] [.cmd [97] [] [] 4, .group .brace [.text [32, 98] (-1)] (-1)] [] 0],
+    fun t => if t == [32, 98] then [(1, 1)] else [], by decide +kernel, by rfl, ?_, ?_⟩
+  · intro t kl hkl
+    by_cases ht : (t == [32, 98]) = true
+    · simp only [ht, if_true, List.mem_singleton] at hkl
+      have : t = [32, 98] := by simpa using ht
+      subst hkl this
+      decide
+    · simp only [ht, Bool.false_eq_true, if_false] at hkl; cases hkl
+  · intro hall
+    have := hall (0, [98]) (by decide)
+    revert this
+    decide
 
 end TexSoup.C13
